@@ -814,6 +814,9 @@ func evaluate(s *Scenario, st *runStats) (fail *Failure) {
 		if obs.WriterFail > 0 {
 			st.Faults["writer_failure"] += obs.WriterFail
 		}
+		if obs.HealthyAfterFailed > 0 {
+			st.Probes["healthy_format_and_render_after_a_failed_call"] += obs.HealthyAfterFailed
+		}
 		st.Faults["stream_cut_at_k"]++
 		st.Probes["render_configurations_run"] += len(s.Renders)
 		nontrivial = true
